@@ -2,6 +2,7 @@ package mon
 
 import (
 	"fmt"
+	"runtime/debug"
 	"strconv"
 	"strings"
 
@@ -42,10 +43,16 @@ func init() {
 }
 
 // safeParseStatic runs ParseStatic and reports a panic instead of propagating it.
+// roFaultMark prefixes the panic text when the panic was a write fault inside a read-only input buffer.
+const roFaultMark = "WRITE-TO-INPUT: "
+
 func safeParseStatic(b []byte, opts gtfs.ParseStaticOptions) (s *gtfs.Static, err error, panicked string) {
 	defer func() {
 		if r := recover(); r != nil {
 			panicked = fmt.Sprint(r)
+			if core.FaultInROBuf(r) {
+				panicked = roFaultMark + panicked + "\n" + core.Trunc(string(debug.Stack()), 3000)
+			}
 		}
 	}()
 	s, err = gtfs.ParseStatic(b, opts)
